@@ -1,4 +1,5 @@
 import Munge.Gen.Dec
+import Munge.Lemmas.ConfReads
 /-
 C04 — UID/GID decode restrictions are enforced, silently to the unauthorized.
 
@@ -108,5 +109,11 @@ example : (dec_validate_auth 1000 4294967295 1000 50 0 (fun _ _ => 0)).ret = 0 :
 example : (dec_validate_auth 1000 4294967295 0 0 0 (fun _ _ => 0)).err = EMUNGE_CRED_UNAUTHORIZED := by decide
 example : (dec_validate_auth 4294967295 77 1000 50 0 (fun u g => if u = 1000 ∧ g = 77 then 1 else 0)).ret = 0 := by decide
 example : (dec_validate_auth 4294967295 77 1001 50 0 (fun u g => if u = 1000 ∧ g = 77 then 1 else 0)).ret = -1 := by decide
+
+/-- The pipeline's source files consult exactly the configuration fields that the model's `Conf` carries (table regenerated
+    from the source on every run): the theorems above, stated for every `cf`, cover every configuration switch that can
+    influence the authorisation verdict.  A new `conf->…` dependence in enc.c / dec.c / cred.c / m_msg.c breaks this. -/
+theorem conf_fields_as_modelled : Munge.Gen.Dec.confReads = Munge.Cred.confAsModelled :=
+  Munge.Cred.conf_reads_as_modelled
 
 end Munge.C04
